@@ -333,6 +333,7 @@ func (h *FBDNSDB) Reload(s ReloadSignal) (err error) {
 
 	h.reloadMu.Lock()
 	defer h.reloadMu.Unlock()
+	verifYield("reload.locked")
 
 	switch s.Kind {
 	case FullReload:
@@ -346,6 +347,7 @@ func (h *FBDNSDB) Reload(s ReloadSignal) (err error) {
 
 	var newDB *db.DB
 	newDB, err = h.dnsdb.Reload(newPath, h.dbConfig.ValidationKey, h.dbConfig.ReloadTimeout)
+	verifYield("reload.backend-reloaded")
 	if err != nil {
 		if errors.Is(err, db.ErrValidationKeyNotFound) {
 			h.stats.IncrementCounter("DNS_db.ErrValidationKeyNotFound")
@@ -359,10 +361,12 @@ func (h *FBDNSDB) Reload(s ReloadSignal) (err error) {
 	// if we didn't timeout and reloading finished without errors
 	h.dnsdb = newDB
 	h.dbConfig.Path = newPath
+	verifYield("reload.swapped")
 
 	if h.cacheConfig.Enabled && h.lru != nil {
 		h.lru.Purge()
 	}
+	verifYield("reload.purged")
 
 	if err := h.cleanupSignalFile(s); err != nil {
 		return err
